@@ -42,6 +42,20 @@ fn verif_chain_any<T, F: FnMut(&T) -> bool>(a: &[T], b: &[T], f: F) -> (r: bool)
 spec fn names_distinct(signals: Seq<Signal>) -> bool {
     forall|i: int, j: int| 0 <= i < j < signals.len() ==> (#[trigger] signals[i]).name@ != (#[trigger] signals[j]).name@
 }
+/// no input-capable signal carries the `_out` column name of a bidirectional signal
+spec fn no_dual(signals: Seq<Signal>) -> bool {
+    forall|i: int, j: int| 0 <= i < signals.len() && 0 <= j < signals.len() && sig_is_input(signals[i]) && signals[j].typ is Bidirectional
+        ==> (#[trigger] signals[i]).name@ != (#[trigger] signals[j]).name@ + "_out"@
+}
+// N7 [A-std]: `xs.iter().any(f)` on a slice: some element is accepted by f
+#[verifier::external_body]
+fn verif_any_slice<T, F: FnMut(&T) -> bool>(xs: &[T], f: F) -> (r: bool)
+    requires forall|i: int| 0 <= i < xs@.len() ==> call_requires(f, (&xs@[i],)),
+    ensures r <==> exists|i: int| 0 <= i < xs@.len() && call_ensures(f, (&#[trigger] xs@[i],), true),
+        !r ==> forall|i: int| 0 <= i < xs@.len() ==> call_ensures(f, (&#[trigger] xs@[i],), false),
+{
+    xs.iter().any(f)
+}
 spec fn name_in(signals: Seq<Signal>, name: Seq<char>) -> bool {
     exists|i: int| 0 <= i < signals.len() && (#[trigger] signals[i]).name@ == name
 }
@@ -308,6 +322,9 @@ proof fn lemma_with_virtuals_unique(signals: Seq<Signal>, vs: Seq<(VirtualSignal
 /// C11: the test and the signal list fit together (all = the signal list with the declared virtual signals appended)
 spec fn fits(t: ParsedTestCase, signals: Seq<Signal>, all: Seq<Signal>) -> bool {
     &&& names_distinct(signals)
+    // `<B>_out` is the header name under which a bidirectional signal B receives its expected values: it counts as one of
+    // the names in use, so no input-capable signal may be called that (F-dual, DESIGN 11.5)
+    &&& no_dual(signals)
     &&& (forall|k: int| 0 <= k < t.virtual_signals@.len() ==> !name_in(signals, (#[trigger] t.virtual_signals@[k]).0.name@))
     &&& (forall|c: int| 0 <= c < t.signals@.len() ==> ParsedTestCase::col_bound(input_indices_spec(t.signals@, all, all.len() as int), expected_indices_spec(t.signals@, all, all.len() as int), c))
     &&& (forall|k: int| 0 <= k < t.expected_inputs@.len() ==> input_named(all, (#[trigger] t.expected_inputs@[k]).0@))
